@@ -120,6 +120,64 @@ pub fn run(rep: &mut Report) {
     }
     rep.count("forward_pairs_agreeing", agree_pairs.len() as u64);
 
+    // ---------------------------------------------------------------- forward, after controller traffic: the bytes a keyboard sends that are
+    //      not scancodes (ACK, resend, echo, self-test results, overrun) arrive identically whichever set is in use; a pair that
+    //      agrees from fresh decoders must agree after them as well
+    {
+        const CTL: [u8; 8] = [0xFA, 0xFE, 0xEE, 0xAA, 0xFC, 0xFD, 0x00, 0xFF];
+        let mut hists: Vec<Vec<u8>> = CTL.iter().map(|b| vec![*b]).collect();
+        for a in CTL {
+            for b in CTL {
+                hists.push(vec![a, b]);
+            }
+        }
+        let mut after_hist = 0u64;
+        for h in hists.iter() {
+            for (ci, (cname, prefix)) in CTX.iter().enumerate() {
+                for &c in &translatable {
+                    let t = x.map[c as usize].unwrap();
+                    for brk in [false, true] {
+                        if !agree_pairs.contains(&(ci, c, brk)) {
+                            continue;
+                        }
+                        let mut s2 = h.clone();
+                        s2.extend(prefix.iter());
+                        if brk {
+                            s2.push(0xF0);
+                        }
+                        s2.push(c);
+                        let mut s1 = h.clone();
+                        s1.extend(prefix.iter());
+                        s1.push(if brk { t | 0x80 } else { t });
+                        let r2 = dec::<ScancodeSet2>(&s2);
+                        let r1 = dec::<ScancodeSet1>(&s1);
+                        rep.evaluations += 1;
+                        after_hist += 1;
+                        let same = match (&r2, &r1) {
+                            (Ok(a), Ok(b)) => a == b,
+                            _ => true, // a panic is C08's matter
+                        };
+                        if !same {
+                            rep.violate(
+                                format!("{}|after=[{}]", fwd_sig(cname, c, brk, &rstr(&r2), &s1[h.len()..], &rstr(&r1)), hex_bytes(h)),
+                                format!(
+                                    "after the controller bytes [{}]: Set 2 [{}] decodes to {}, but the i8042 translation of it, Set 1 [{}], decodes to {} (from fresh decoders the two agree)",
+                                    hex_bytes(h),
+                                    hex_bytes(&s2[h.len()..]),
+                                    rstr(&r2),
+                                    hex_bytes(&s1[h.len()..]),
+                                    rstr(&r1)
+                                ),
+                                replay(&s2, &s1, &rstr(&r2), &rstr(&r1)),
+                            );
+                        }
+                    }
+                }
+            }
+        }
+        rep.count("forward_pairs_compared_after_controller_bytes", after_hist);
+    }
+
     // ---------------------------------------------------------------- converse
     let mut conv_checked = 0u64;
     for (_ci, (cname, prefix)) in CTX.iter().enumerate() {
